@@ -16,7 +16,7 @@ def run(rep):
     fw.standin(rep, 's_init.py', ['run'], 'ground check (no inputs): initial evaluation context, blacklist, builtin registrations, clear()',
                'single configuration, complete')
     if os.path.exists(os.path.join(fw.VERIF, 'standin', 's_c08.py')):
-        fw.standin(rep, 's_c08.py', ['run', rep.seed, 300 if q else 5000],
+        fw.standin(rep, 's_c08.py', ['run', rep.seed, 1500 if q else 8000],
                    'histories of register (inferred/explicit/variadic), load (overwrite on/off, failing), assert, clear vs list-of-definitions model',
                    'histories of length 2..7 over 2-3 names x arities 0..2; probe queries after every step')
     rep.notes.append('query: answers = facts of name/len(args) read when the query starts, then (unless the name is an API name) the '
